@@ -59,8 +59,8 @@ CHECKS.update({
    note='Larger |n| with holidays in between follows by induction on the loop counter (stated, not solver-checked). For |n|>=2 the week-mask predicate is fixed to true (same business-day predicate space). Finding fixed: lag settlement direction (known_findings.json).'),
  'C20': dict(engine='kani+mirsym', technique='panic reachability: Kani/CBMC harnesses over the compiled code for date arithmetic over the whole i8 / month-offset range; mirsym path exploration where every leaf must be Ok (shape invariant proved by z3) or Err and any Panic leaf inside the documented input range is a violation; native replay',
    category='model_checking', design_ref='DESIGN.md §3.20',
-   text='PARTIAL. Decided: add_days / add_months / get_roll never abort for every i8 day count, every month offset landing in 1970-2200, roll days 1-31, all modifiers (K, full range; add_bus_days and lag over the full i8 range in thorough; M: every i8 count on gap-free calendars, n in -2..2 on arbitrary calendars); roll never aborts; Dual/Dual2::try_new (vars 0..3 with duplicates, dual 0..4, dual2 0..10), Ccy/FXPair::try_new, Cal::new with week masks 0-6 return Ok with the shape invariant or Err on every path. NOT decided: arbitrary JSON texts (the serde_json parser and derive visitors are outside reach) - stated in DESIGN §4.',
-   note='FXRates/NamedCal/PPSpline constructors are exercised for panics inside C09/C06/C15. Finding fixed: add_days(i8::MIN).'),
+   text='PARTIAL. Decided: add_days / add_months / get_roll never abort for every i8 day count, every month offset landing in 1970-2200, roll days 1-31, all modifiers (K, full range; add_bus_days and lag over the full i8 range in thorough; M: every i8 count on gap-free calendars, n in -2..2 on arbitrary calendars); roll never aborts; Dual/Dual2::try_new (vars 0..3 with duplicates, dual 0..4, dual2 0..10), Ccy/FXPair::try_new, Cal::new with week masks 0-6 return Ok with the shape invariant or Err on every path; the load-time reconstruction that serde calls after parsing (NamedCal / FXRates data model -> object) returns a value or an error, never aborts, for saved names that try_new refuses and for every quote-list structure with 1..2 quotes combined with a currency list that is as saved / empty / short / reversed / extended (i.e. documents whose VALUES were altered, deleted or duplicated). NOT decided: the JSON text level itself (serde_json parser and derive visitors are outside reach; type-level damage is rejected there) - stated in DESIGN §4.',
+   note='FXRates/NamedCal/PPSpline constructors are exercised for panics inside C09/C06/C15. Findings fixed: add_days(i8::MIN); from_json aborting on altered NamedCal / FXRates documents.'),
 })
 CHECKS.update({
  'C06': dict(engine='mirsym', technique='symbolic execution of the MIR of the DateRoll impls of Cal/UnionCal/NamedCal/CalType over member calendars with free (uninterpreted) holiday sets and week masks, of NamedCal::try_new on grammar strings compared for a symbolic date with the explicit combination, and of the == impls with the date range summarised by one symbolic day; z3 validity per path; native replay',
@@ -101,7 +101,7 @@ CHECKS.update({
    note='Reals. Knot values are concrete families (symbolic x); fully symbolic knot vectors and k>6 are outside.'),
  'C15': dict(engine='mirsym', technique='symbolic execution of the MIR of PPSpline::new/csolve/bsplmatrix/ppdnev_single(_dual/_dual2)/mapped_value (with the fdsolve and B-spline bodies underneath) on concrete layouts with symbolic data, polynomial coefficients and evaluation point; z3 validity per path; native replay',
    category='model_checking', design_ref='DESIGN.md §3.15',
-   text='On each layout (k=2..4, 3-6 sites, uneven sites, natural-spline layout with repeated end sites and second-derivative end conditions; more in thorough): the solved spline meets every datum (value at interior sites, requested derivative at the end sites) for symbolic data; for data taken from a polynomial of degree < k with symbolic coefficients the spline and ALL its derivatives equal the polynomial at a symbolic x; with Dual/Dual2 data the sensitivity to datum j equals the spline of unit data e_j and there is no second-order term; a Dual/Dual2 abscissa carrying TWO variables (symbolic first-order coefficients g, symbolic symmetric second-order block h) returns s, s\'(x)g_a, s\'\'(x)g_a g_b + 2 s\'(x)h_ab by name; the 3x3 spline-type x abscissa-type table incl. the two refusing pairs; site-count mismatches and evaluation before solving give Err (no abort).',
+   text='On each layout (quick: 7 layouts with k=2..5, 3-6 sites, uneven sites and knots, a repeated interior knot, natural-spline and first-derivative end conditions; thorough: 11 layouts incl. k=6 and k=5 with interior knots): the solved spline meets every datum (value at interior sites, requested derivative at the end sites) for symbolic data; for data taken from a polynomial of degree < k with symbolic coefficients the spline and ALL its derivatives equal the polynomial at a symbolic x; with Dual/Dual2 data the sensitivity to datum j equals the spline of unit data e_j and there is no second-order term; a Dual/Dual2 abscissa carrying TWO variables (symbolic first-order coefficients g, symbolic symmetric second-order block h) returns s, s\'(x)g_a, s\'\'(x)g_a g_b + 2 s\'(x)h_ab by name; the 3x3 spline-type x abscissa-type table incl. the two refusing pairs; site-count mismatches and evaluation before solving give Err (no abort).',
    note='Concrete knots/sites (symbolic ones are outside); reals.'),
 })
 CHECKS.update({
